@@ -38,14 +38,14 @@ import (
 // ---------------------------------------------------------------- input / observation
 
 type opJ struct {
-	Op   string `json:"op"` // create start destroy stuck die cleanup store reconnect crash
+	Op   string `json:"op"` // create hold run lost start destroy stuck die cleanup store reconnect crash
 	K    int    `json:"k,omitempty"`
 	E    int    `json:"e,omitempty"`
 	T    int    `json:"t,omitempty"`
 	Keep bool   `json:"keep,omitempty"`
 	P    string `json:"p,omitempty"` // idle before after midcfg
 	V    int    `json:"v,omitempty"` // store: -1 absent, 0 empty string, n>0 foreign id n
-	S    int    `json:"s,omitempty"` // mstate: numeric mesos.TaskState
+	S    int    `json:"s,omitempty"` // mstate, hold: numeric mesos.TaskState
 }
 
 type inputJ struct {
@@ -106,9 +106,9 @@ command:
 `, i)
 }
 
-func workflow(i, k int) string {
+func workflow(i, k int, deployTimeout string) string {
 	var b strings.Builder
-	fmt.Fprintf(&b, "name: w%d\ndefaults:\n  deploy_timeout: 6s\nroles:\n", i)
+	fmt.Fprintf(&b, "name: w%d\ndefaults:\n  deploy_timeout: %s\nroles:\n", i, deployTimeout)
 	for j := 0; j < k; j++ {
 		fmt.Fprintf(&b, "  - name: \"t%d\"\n    task:\n      load: c%d\n", j, j)
 	}
@@ -148,6 +148,12 @@ type runner struct {
 	barriers   int    // RECONCILE calls whose answers are known to have been handled by the core
 	markers    int    // marker updates sent so far
 	memID      string // framework id the current life held before its latest SUBSCRIBE
+	// launch window: a "hold" operation starts an environment creation whose tasks are accepted and
+	// put into the roster while the simulated agent withholds their first TASK_RUNNING
+	holding     bool
+	held        map[string]bool // tasks whose TASK_RUNNING is withheld
+	pendingDone chan struct{}   // closed when the held CreateEnvironment has returned
+	life        int
 }
 
 const markerPrefix = "verif-marker-"
@@ -425,12 +431,39 @@ func (r *runner) envTaskIds(e uid.ID) []string {
 
 func (r *runner) crash() error {
 	r.memID, _ = r.s.Consul.Get(fidKey) // what NewManager of the new life loads
-	err := r.s.RestartLife()
-	r.envs = map[int]uid.ID{}
 	r.mu.Lock()
+	r.life++
+	r.held = map[string]bool{}
+	r.pendingDone = nil
+	r.mu.Unlock()
+	err := r.s.RestartLife()
+	r.mu.Lock()
+	r.envs = map[int]uid.ID{}
 	r.silent = false
 	r.mu.Unlock()
 	return err
+}
+
+func (r *runner) envOf(e int) (uid.ID, bool) {
+	r.mu.Lock()
+	defer r.mu.Unlock()
+	id, ok := r.envs[e]
+	return id, ok
+}
+
+func (r *runner) heldLeft() int {
+	r.mu.Lock()
+	defer r.mu.Unlock()
+	return len(r.held)
+}
+
+func (r *runner) inRoster(id string) bool {
+	for _, t := range r.s.Taskman.VerifRoster() {
+		if t.TaskId == id {
+			return true
+		}
+	}
+	return false
 }
 
 func (r *runner) apply(i int, op opJ) error {
@@ -443,26 +476,109 @@ func (r *runner) apply(i int, op opJ) error {
 		if err != nil {
 			return fmt.Errorf("create: %v", err)
 		}
+		r.mu.Lock()
 		r.envs[e] = id
+		r.mu.Unlock()
+	case "hold":
+		// CreateEnvironment up to the launch window: the k tasks are accepted by the master and put
+		// into the roster (locked by the new environment, not yet ACTIVE); the agent withholds their
+		// first TASK_RUNNING until a "run" operation; the master's own view of them is op.S
+		// (TASK_STAGING, or TASK_STARTING / TASK_RUNNING with the update still on its way).
+		e := r.nextEnv
+		r.nextEnv++
+		r.mu.Lock()
+		r.holding = true
+		life := r.life
+		done := make(chan struct{})
+		r.pendingDone = done
+		r.mu.Unlock()
+		go func() {
+			id, err := r.s.Envman.CreateEnvironment(fmt.Sprintf("w%d", i), map[string]string{}, false, uid.New(), false)
+			r.mu.Lock()
+			if err == nil && r.life == life {
+				r.envs[e] = id
+			}
+			r.mu.Unlock()
+			close(done)
+		}()
+		ok := simcore.WaitFor(10*time.Second, func() bool {
+			r.mu.Lock()
+			ids := make([]string, 0, len(r.held))
+			for id := range r.held {
+				ids = append(ids, id)
+			}
+			r.mu.Unlock()
+			if len(ids) < op.K {
+				return false
+			}
+			for _, id := range ids {
+				if !r.inRoster(id) {
+					return false
+				}
+			}
+			return true
+		})
+		r.mu.Lock()
+		r.holding = false
+		ids := make([]string, 0, len(r.held))
+		for id := range r.held {
+			ids = append(ids, id)
+		}
+		r.mu.Unlock()
+		if !ok {
+			return fmt.Errorf("hold: the launch window was not reached (%d of %d tasks held)", len(ids), op.K)
+		}
+		if st := mesos.TaskState(op.S); st == mesos.TASK_STARTING || st == mesos.TASK_RUNNING {
+			for _, id := range ids {
+				r.s.SetTaskState(id, st)
+			}
+		}
+	case "run":
+		// the executor of task T reports TASK_RUNNING (for a held task: its first report)
+		if id := r.taskIdOf(op.T); id != "" {
+			r.s.RunTask(id)
+			r.mu.Lock()
+			delete(r.held, id)
+			done, left := r.pendingDone, len(r.held)
+			r.mu.Unlock()
+			if done != nil && left == 0 {
+				// the last withheld report: the held creation runs to its end (or fails)
+				select {
+				case <-done:
+				case <-time.After(30 * time.Second):
+				}
+				r.mu.Lock()
+				r.pendingDone = nil
+				r.mu.Unlock()
+			}
+		}
+	case "lost":
+		// the master declares task T lost (agent unreachable) but still has it: INACTIVE in the
+		// roster, alive at the master
+		if id := r.taskIdOf(op.T); id != "" {
+			r.s.LoseTask(id)
+		}
 	case "start":
 		// (a second START of a RUNNING environment is refused and pushes it into ERROR: not a
 		// transition "that leaves ownership alone", so the harness never sends one)
-		if id, ok := r.envs[op.E]; ok && !r.started[op.E] {
+		if id, ok := r.envOf(op.E); ok && !r.started[op.E] {
 			r.started[op.E] = true
 			_, _ = r.s.Rpc.ControlEnvironment(bg, &pb.ControlEnvironmentRequest{Id: id.String(), Type: pb.ControlEnvironmentRequest_START_ACTIVITY})
 		}
 	case "destroy":
-		if id, ok := r.envs[op.E]; ok {
+		if id, ok := r.envOf(op.E); ok {
 			// Whether keepTasks is honoured is decided by the environment FSM and the RPC layer (a
 			// teardown that has to be forced ignores it), neither of which the C18 model contains:
 			// the bit is read off the reply (no CleanupTasksReply = the keepTasks return was taken)
 			// and handed to the model as an oracle.
 			rep, _ := r.s.Rpc.DestroyEnvironment(bg, &pb.DestroyEnvironmentRequest{Id: id.String(), AllowInRunningState: true, KeepTasks: op.Keep})
 			r.keepEff[i] = op.Keep && rep != nil && rep.CleanupTasksReply == nil
+			r.mu.Lock()
 			delete(r.envs, op.E)
+			r.mu.Unlock()
 		}
 	case "stuck":
-		if id, ok := r.envs[op.E]; ok {
+		if id, ok := r.envOf(op.E); ok {
 			r.mu.Lock()
 			r.deafAll = true
 			r.mu.Unlock()
@@ -493,7 +609,9 @@ func (r *runner) apply(i int, op opJ) error {
 			r.mu.Lock()
 			r.deafAll = false
 			r.mu.Unlock()
+			r.mu.Lock()
 			delete(r.envs, op.E)
+			r.mu.Unlock()
 		}
 	case "die":
 		if id := r.taskIdOf(op.T); id != "" {
@@ -599,14 +717,18 @@ func runScript(in inputJ, workdir string) (out childOut) {
 	wfs := map[string]string{}
 	for i, op := range in.Ops {
 		if op.Op == "create" || (op.Op == "crash" && op.P != "idle" && op.P != "") {
-			wfs[fmt.Sprintf("w%d", i)] = workflow(i, op.K)
+			wfs[fmt.Sprintf("w%d", i)] = workflow(i, op.K, "6s")
+		}
+		if op.Op == "hold" {
+			wfs[fmt.Sprintf("w%d", i)] = workflow(i, op.K, "600s") // the deployment waits for the withheld reports
 		}
 	}
 	fo := "1000h"
 	if !in.Failover {
 		fo = "0s"
 	}
-	r := &runner{rec: rec, taskIdx: map[string]int{}, envs: map[int]uid.ID{}, deaf: map[string]bool{}, started: map[int]bool{}, keepEff: map[int]bool{}, pendingRun: map[string]bool{}}
+	r := &runner{rec: rec, taskIdx: map[string]int{}, envs: map[int]uid.ID{}, deaf: map[string]bool{}, started: map[int]bool{}, keepEff: map[int]bool{}, pendingRun: map[string]bool{}, held: map[string]bool{}}
+	simcore.ReconcileStaging = true
 	s, err := simcore.New(simcore.Options{
 		Plugins:     map[string]integration.NewFunc{"verif": vplugin.New(rec)},
 		WorkDir:     workdir,
@@ -636,6 +758,11 @@ func runScript(in inputJ, workdir string) (out childOut) {
 	s.Beh.Launch = func(ti mesos.TaskInfo) string {
 		id := ti.TaskID.Value
 		r.mu.Lock()
+		if r.holding {
+			r.held[id] = true
+			r.mu.Unlock()
+			return "silent"
+		}
 		r.pendingRun[id] = true
 		r.mu.Unlock()
 		go func() {
@@ -684,6 +811,12 @@ func opTerm(o opJ, keepEff bool) string {
 	switch o.Op {
 	case "create":
 		return fmt.Sprintf("OCreate %d", o.K)
+	case "hold":
+		return fmt.Sprintf("OCreateHeld %d %d", o.K, o.S)
+	case "run":
+		return fmt.Sprintf("ORun %d", o.T)
+	case "lost":
+		return fmt.Sprintf("OLost %d", o.T)
 	case "start":
 		return fmt.Sprintf("OStart %d", o.E)
 	case "destroy":
